@@ -91,6 +91,14 @@ type fillOpts struct {
 	skipCustom bool
 	// hook lets a caller take over a type (return true when handled).
 	hook func(v reflect.Value, s *stream) bool
+	// steerOmitEmpty is asked, when an empty non-nil slice/map is about to be
+	// put into a field tagged omitempty, whether to store nil instead (used
+	// to steer around listed nil-vs-empty findings). path is the dotted field
+	// path from the root.
+	steerOmitEmpty func(path string) bool
+	steered        int
+	path           []string
+	pendingOmit    bool
 }
 
 func settable(v reflect.Value) reflect.Value {
@@ -267,6 +275,15 @@ func collLen(s *stream, o *fillOpts) (n int, isNil bool) {
 // zero: that tag is the explicit, documented opt-out (memprotocol's Info).
 func fill(v reflect.Value, s *stream, o *fillOpts) {
 	v = settable(v)
+	omit := o.pendingOmit
+	o.pendingOmit = false
+	steerEmpty := func() bool {
+		if omit && o.steerOmitEmpty != nil && o.steerOmitEmpty(strings.Join(o.path, ".")) {
+			o.steered++
+			return true
+		}
+		return false
+	}
 	if o.hook != nil && o.hook(v, s) {
 		return
 	}
@@ -286,7 +303,7 @@ func fill(v reflect.Value, s *stream, o *fillOpts) {
 		v.SetString(fillString(s, o))
 	case reflect.Slice:
 		n, isNil := collLen(s, o)
-		if isNil {
+		if isNil || (n == 0 && steerEmpty()) {
 			v.SetZero()
 			return
 		}
@@ -311,7 +328,7 @@ func fill(v reflect.Value, s *stream, o *fillOpts) {
 		o.depth--
 	case reflect.Map:
 		n, isNil := collLen(s, o)
-		if isNil {
+		if isNil || (n == 0 && steerEmpty()) {
 			v.SetZero()
 			return
 		}
@@ -333,10 +350,15 @@ func fill(v reflect.Value, s *stream, o *fillOpts) {
 			return
 		}
 		for i := 0; i < t.NumField(); i++ {
-			if _, _, dash := jsonTag(t.Field(i)); dash {
+			_, opts, dash := jsonTag(t.Field(i))
+			if dash {
 				continue
 			}
+			o.path = append(o.path, t.Field(i).Name)
+			o.pendingOmit = hasOpt(opts, "omitempty")
 			fill(v.Field(i), s, o)
+			o.pendingOmit = false
+			o.path = o.path[:len(o.path)-1]
 		}
 	case reflect.Ptr:
 		if s.n(3) == 0 || o.depth >= 6 {
@@ -396,6 +418,11 @@ type diffOpts struct {
 	// form instead of field by field (used for library State values, where a
 	// restored lruset.Set deliberately has a non-nil empty key map).
 	opaqueByBytes bool
+	// skipOpaque does not compare such containers at all.
+	skipOpaque bool
+	// noOmitEmptyWaiver reports nil-vs-empty even on omitempty fields (C08:
+	// the statement says "equal value").
+	noOmitEmptyWaiver bool
 }
 
 func addressableCopy(v reflect.Value) reflect.Value {
@@ -463,7 +490,7 @@ func diffValuesC(a, b reflect.Value, path string, omitEmpty bool, parents []refl
 	case reflect.Slice:
 		if a.IsNil() != b.IsNil() {
 			if a.Len() == 0 && b.Len() == 0 {
-				if omitEmpty {
+				if omitEmpty && !(do != nil && do.noOmitEmptyWaiver) {
 					toleratedOmitEmpty++
 					return nil
 				}
@@ -493,7 +520,7 @@ func diffValuesC(a, b reflect.Value, path string, omitEmpty bool, parents []refl
 	case reflect.Map:
 		if a.IsNil() != b.IsNil() {
 			if a.Len() == 0 && b.Len() == 0 {
-				if omitEmpty {
+				if omitEmpty && !(do != nil && do.noOmitEmptyWaiver) {
 					toleratedOmitEmpty++
 					return nil
 				}
@@ -515,6 +542,9 @@ func diffValuesC(a, b reflect.Value, path string, omitEmpty bool, parents []refl
 			}
 		}
 	case reflect.Struct:
+		if do != nil && do.skipOpaque && isOpaqueCustom(t) {
+			return nil
+		}
 		if do != nil && do.opaqueByBytes && isOpaqueCustom(t) {
 			ab, e1 := json.Marshal(a.Interface())
 			bb, e2 := json.Marshal(b.Interface())
